@@ -29,6 +29,8 @@ pub(crate) enum DecyclerError {
 pub(crate) struct Decycler<T, const D: usize> {
     node_ids: [T; D],
     depth: usize,
+    /// Number of nodes that may still be visited by this traversal.
+    visits_left: u32,
 }
 
 impl<T, const D: usize> Decycler<T, D>
@@ -39,7 +41,23 @@ where
         Self {
             node_ids: [T::default(); D],
             depth: 0,
+            visits_left: u32::MAX,
         }
+    }
+
+    /// Limits the total number of nodes the traversal may visit.
+    pub fn with_visit_budget(mut self, budget: u32) -> Self {
+        self.visits_left = budget;
+        self
+    }
+
+    /// Accounts for one visited node; fails once the budget is used up.
+    pub fn visit(&mut self) -> Result<(), DecyclerError> {
+        self.visits_left = self
+            .visits_left
+            .checked_sub(1)
+            .ok_or(DecyclerError::DepthLimitExceeded)?;
+        Ok(())
     }
 
     /// Enters a new graph node with the given value that uniquely
